@@ -56,7 +56,15 @@ _SB = C('SBase', [P('line', 'int')], savorize=[['int_add', 'line', -1]])
 _SD = C('SDerived', [P('line', 'int'), P('col', 'int')], ['SBase'])
 _SE = C('SDeep', [P('line', 'int'), P('col', 'int'), P('w', 'int')], ['SDerived'],
         savorize=[['int_add', 'col', 10]])
+_SHD = {'name': 'Shade', 'kind': 'enum', 'members': ['red', 'dark']}
+_US2 = {'name': 'US2', 'kind': 'userstring'}
+_EH = C('EH', [P('c', ['union', REF('Col'), REF('Shade')]),
+               P('s', ['union', REF('US'), REF('US2'), 'int'], ['int', 0]),
+               P('o', OPT(REF('Col')), ['none']),
+               P('t', ['union', REF('US'), 'str'], ['str', 'q'])])
 MODELS = {
+    'EU': {'classes': [_COL, _SHD, _US, _US2, _EH],
+           'doc_type': ['union', REF('EH'), REF('Col'), REF('Shade'), ['list', REF('Shade')]]},
     'SV': {'classes': [_SB, _SD, _SE], 'doc_type': REF('SBase')},
     'DI': {'classes': [_TL, _PN, _BR, _MK], 'doc_type': REF('Tool')},
     'DK': {'classes': [_US, _YS, _DK], 'doc_type': REF('DK')},
@@ -89,7 +97,7 @@ KEYS = {
     'L': ['x', 'a', 'b'], 'DM': ['k', 'j'], 'DU': ['k', 'j'], 'AB': ['a', 'b'],
     'SH': ['center', 'radius', 'width', 'x'], 'UN': ['a', 'b', 'c'],
     'WD': ['n', 'when', 'where', 'zz'], 'BF': ['k'],
-    'DK': ['m', 'y', 'k'], 'PR': ['a', '_id', 'b'], 'DI': ['a', 'b', 'c', 'd'], 'SV': ['line', 'col', 'w'],
+    'EU': ['c', 's', 'o', 't'], 'DK': ['m', 'y', 'k'], 'PR': ['a', '_id', 'b'], 'DI': ['a', 'b', 'c', 'd'], 'SV': ['line', 'col', 'w'],
 }
 SCALS = ['1', 'x', 'true', '1.5', '~', 'red', '"1"']
 SCALS_BY = {'SV': ['1', '7', 'x', '~'], 'WD': ['1', 'seven', '2001-01-01', '~', 'a/b', '1.5'],
